@@ -1067,10 +1067,9 @@ class ParallelFilter(FilterList):
 
   @property
   def denpoly(self):
-    try:
-      return reduce(operator.mul, (filt.denpoly for filt in self.callables))
-    except AttributeError:
+    if not self.is_linear():
       raise AttributeError("Non-linear filter")
+    return reduce(operator.add, self).denpoly
 
   @elementwise("freq", 1)
   def freq_response(self, freq):
